@@ -70,7 +70,9 @@ claim("C04", "proof", T1 + " (sets of split masks; default-argument and stalenes
       "Proved (T1): false_positives_and_negatives returns (|S_cmp - S_ref|, |S_ref - S_cmp|) over the encodings current AFTER the re-encoding it performs "
       "(both trees unless is_bipartitions_updated; default False: never a stale encoding), refuses different namespaces; symmetric_difference = fp + fn and its aliases; "
       "Lean: RF is the cardinality of the symmetric difference, zero iff equal split sets, symmetric, triangular; wRF / Euclidean are L1 / L2 distances of the "
-      "length vectors (symmetric, triangular). Bounded (T2): values of all four distances against the split-set definitions on all pairs/triples of small trees, "
+      "length vectors (symmetric, triangular); every distance function hands the caller's is_bipartitions_updated to the function that acts on it UNCHANGED "
+      "(one AST obligation per call site: a negated, constant or dropped flag would make a distance read encodings cached before a modification). "
+      "Bounded (T2): values of all four distances against the split-set definitions on all pairs/triples of small trees, "
       "definedness symmetry, edit-then-distance histories.",
       "card() of a finite set is an uninterpreted function with the Lean lemmas as its theory; the weighted distances' code (length vectors from bipartition_edge_map) is bounded only; "
       "one recorded known finding (two-leaf unrooted trees)",
@@ -80,7 +82,8 @@ claim("C05", "proof", T1 + " (dictionaries as maps incl. collections.defaultdict
       "weight, 1.0 when weights are absent or unused; one tree counted; no other split changes), update (pointwise sum of counts and totals), calc_normalization_weight, "
       "calc_freqs (table has exactly the counted splits, each count / total weight), _get_split_frequencies (never stale), __getitem__ (0.0 for a split in no tree); "
       "the two summary tables (edge lengths, node ages) are never served stale: their getters return a table computed from the trees counted NOW, under a cache-protocol "
-      "invariant (one shared staleness counter) that counting, merging and the frequency functions preserve. "
+      "invariant (one shared staleness counter) that counting, merging and the frequency functions preserve; on every summary route of treecollectionmodel / treesum "
+      "the caller's is_bipartitions_updated reaches count_splits_on_tree unchanged (AST obligation per call site: a summary never trusts an encoding the caller did not vouch for). "
       "Bounded (T2): consensus all-and-only / maximal-greedy, spanning, rooting, support / length / age summaries (also after incremental filling), collapse, maximum credibility.",
       "ASSUMED contract: Tree.encode_bipartitions lists every split once (C01; fails exactly on the recorded finding C05-two-leaf-unrooted); floats are reals; with zero trees "
       "counted the table holds 1.0 (taken from the code: the fraction is undefined); the CONTENT of the summary tables is abstracted (calc_* recompute from every value list: "
@@ -145,7 +148,8 @@ claim("C13", "exploration", T2 + "; a small T1 part (AST obligations, no solver)
 claim("C14", "proof", T1 + " (heap theory B, bit masks as sets, Python iterators as (list snapshot, position), the **kwargs dictionary with literal keys); " + T2,
       "Proved (T1, MRCA clause): for tree.mrca(leafset_bitmask=q, is_bipartitions_updated=True) on an encoded tree the result is None exactly when q is not contained in the "
       "seed node's mask; otherwise the returned node's mask contains q and no child of it does (the deepest node over the taxa), on each of the three ways the search loop "
-      "returns (exact match after stepping down unifurcations, partial overlap, iterator exhausted). Bounded (T2, deciding for the rest): path sums, edge counts and turning nodes for "
+      "returns (exact match after stepping down unifurcations, partial overlap, iterator exhausted); patristic_distance hands its is_bipartitions_updated to mrca unchanged (AST). "
+      "Bounded (T2, deciding for the rest): path sums, edge counts and turning nodes for "
       "every pair, mrca through taxa / labels and the distance matrix, MPD / MNTD, NJ on additive and UPGMA on ultrametric matrices, CSV round trip.",
       "ASSUMED (requires): the encoding facts -- an internal mask is the union of its children's (C01), sibling masks disjoint, no empty mask (every leaf carries a taxon), tree "
       "well-formedness (C03); 'a child of a multifurcation never carries its parent's whole mask' is derived from them by a z3 lemma obligation with one instantiation hint; "
